@@ -169,7 +169,7 @@ structure SectStyle (k : Kind) (cfg : Cfg) (open_ close : List UInt8) : Prop ext
   /-- the header while no section is open: one call -/
   headFirst : ∀ (s : St) (src : Src) (prev : Nat) (junk n tr rest : List UInt8),
     Clean [] s.path → s.valid = 0 → (prev = 1 ∨ prev = 11) → visSkip false junk = some false → nameOk n = true →
-    trailOk tr = true → src.rest = junk ++ open_ ++ n ++ close ++ tr ++ 10 :: rest →
+    headTrailOk tr = true → src.rest = junk ++ open_ ++ n ++ close ++ tr ++ 10 :: rest →
     ∃ s' src' J', next k cfg prev s src = (1, s', src')
       ∧ (∃ l fi' v' ln', s' = Stt [n] l false fi' v' (Flag.section_ ||| Flag.name) ln')
       ∧ visSkip false J' = some false ∧ src'.rest = J' ++ rest
@@ -179,7 +179,7 @@ structure SectStyle (k : Kind) (cfg : Cfg) (open_ close : List UInt8) : Prop ext
     ∃ s1 src1, next k cfg 11 s src = (2, s1, src1) ∧ s1.path = s.path ∧ s1.curr = Flag.sectEnd ∧ src1.rest = R
   /-- … and the next call reads the name -/
   headNext : ∀ (s : St) (src : Src) (n tr rest : List UInt8),
-    Clean [] s.path → s.valid = 0 → nameOk n = true → trailOk tr = true →
+    Clean [] s.path → s.valid = 0 → nameOk n = true → headTrailOk tr = true →
     src.rest = n ++ close ++ tr ++ 10 :: rest →
     ∃ s' src' J', next k cfg 2 s src = (1, s', src')
       ∧ (∃ l fi' v' ln', s' = Stt [n] l false fi' v' (Flag.section_ ||| Flag.name) ln')
@@ -369,6 +369,87 @@ theorem encSection_name (e : List (List UInt8)) (s : St) (src : Src) (n : List U
     simp only [hname, hnc, hadd]
     rfl
 
+/-- a section name behind the start character, ended by a comment glued to it -/
+theorem encSection_comment (e : List (List UInt8)) (s : St) (src : Src) (n txt rest : List UInt8)
+    (hclean : Clean e s.path) (hv : s.valid = 0) (hn : nameOk n = true)
+    (htxt : txt.contains 10 = false) (hsrc : src.rest = n ++ 35 :: (txt ++ 10 :: rest)) :
+    ∃ l fi' ln' src', encSection cfg s src = (1, Stt (e ++ [n]) l false fi' 0 (Flag.section_ ||| Flag.name) ln', src')
+      ∧ src'.rest = rest := by
+  have hn' := hn
+  unfold nameOk at hn'
+  simp only [Bool.and_eq_true] at hn'
+  cases n with
+  | nil => simp at hn'
+  | cons c0 n' =>
+    simp only [List.all_cons, Bool.and_eq_true] at hn'
+    obtain ⟨h0, _, h35, _, _, _, _, _, _, _, _, _, hsp⟩ := nameChar_facts c0 hn'.1.2.1
+    have hvis : visible c0 = true := by simp [visible, h0, hsp, h35]
+    obtain ⟨ln, src1, hnv, hr1⟩ := nextvis_skip hc.hash [] c0 (n' ++ 35 :: (txt ++ 10 :: rest))
+      { s with curr := Flag.section_ } src rfl hvis (by simpa using hsrc)
+    have hc0 : (c0 == 0) = false := by simp [h0]
+    have hrun := run_enc_name hc e s.path.first (Flag.section_ ||| Flag.name) ln n' [c0] hn'.1.2.2
+    simp only [List.length_singleton] at hrun
+    have hcom : cfg.fmt.isComment 35 = true := by rw [hc.hash.isComment]; decide
+    have hstep : encStep cfg.fmt (Stt e ([c0] ++ n') true s.path.first ([c0] ++ n').length (Flag.section_ ||| Flag.name) ln) 35
+        = .done (.comment (Stt e ([c0] ++ n' ++ [35]) true s.path.first ([c0] ++ n').length (Flag.section_ ||| Flag.name)
+            ln)) := by
+      unfold encStep
+      simp only [save_stt _ _ _ _ _ _ _ _ (by decide : (35 : UInt8) ≠ 0), addchar_keep]
+      have : isspace 35 = false := by decide
+      simp [this, hcom]
+    obtain ⟨src2, hscan, hr2⟩ := scan_prefix_done (encStep cfg.fmt) (fun s => EncExit.ret Err.MissingData.code s) n' 35
+      (txt ++ 10 :: rest) src1 _ _ _ hr1 hrun hstep
+    obtain ⟨ln3, src3, hend, hr3⟩ := endline_line txt rest
+      (Stt e ([c0] ++ n' ++ [35]) true s.path.first ([c0] ++ n').length (Flag.section_ ||| Flag.name) ln) src2 htxt hr2
+    have htake : ([c0] ++ n' ++ [35]).take ([c0] ++ n').length = c0 :: n' := by
+      rw [List.take_left' rfl]; rfl
+    have hadd := add_pth e ([c0] ++ n' ++ [35]) true s.path.first ([c0] ++ n').length
+      (by simp only [List.length_append, List.length_cons, List.length_nil]; omega)
+      (by rw [htake]; exact nameOk_nosep (c0 :: n') (by simp [hn'.1.2.1, hn'.1.2.2]))
+    rw [htake] at hadd
+    refine ⟨List.drop (([c0] ++ n').length + 1) ([c0] ++ n' ++ [35]),
+      (if e.isEmpty = true then UInt8.ofNat ([c0] ++ n').length else s.path.first), ln3, src3, ?_, hr3⟩
+    unfold encSection
+    simp only [hnv, hc0, Bool.false_eq_true, ↓reduceIte]
+    rw [addchar_clean hclean c0]
+    simp only [hv, markValid_stt, List.isEmpty_cons, Bool.not_false, Bool.or_true, List.length_cons,
+      List.length_nil, Nat.zero_add, hscan, hend]
+    unfold encFinish St.commit
+    have hname : (Stt e ([c0] ++ n' ++ [35]) true s.path.first ([c0] ++ n').length (Flag.section_ ||| Flag.name)
+        ln3).name = c0 :: n' := by
+      simp only [St.name, head_pth, htake]
+    have hnc : ncheck (c0 :: n') cfg.sect = none := by rw [hc.sect]; exact ncheck_all _
+    simp only [hname, hnc, hadd]
+    rfl
+
+/-- a section header `name` + what may follow it on the line -/
+theorem encSection_head (e : List (List UInt8)) (s : St) (src : Src) (n tr rest : List UInt8)
+    (hclean : Clean e s.path) (hv : s.valid = 0) (hn : nameOk n = true) (htr : headTrailOk tr = true)
+    (hsrc : src.rest = n ++ tr ++ 10 :: rest) :
+    ∃ l fi' ln' src' J', encSection cfg s src = (1, Stt (e ++ [n]) l false fi' 0 (Flag.section_ ||| Flag.name) ln', src')
+      ∧ visSkip false J' = some false ∧ src'.rest = J' ++ rest := by
+  unfold headTrailOk at htr
+  simp only [Bool.or_eq_true] at htr
+  rcases htr with htr | htr
+  · obtain ⟨t, J', hsplit, ht, ht0, hJ'⟩ := trail_head tr htr
+    have hsrc' : src.rest = n ++ t :: (J' ++ rest) := by
+      rw [hsrc]
+      have : tr ++ 10 :: rest = t :: (J' ++ rest) := by
+        have := congrArg (· ++ rest) hsplit
+        simpa [List.append_assoc] using this
+      simp [List.append_assoc, this]
+    obtain ⟨l, fi', ln', src2, hes, hr2⟩ := encSection_name hc e s src n t (J' ++ rest) hclean hv hn ht ht0 hsrc'
+    exact ⟨l, fi', ln', src2, J', hes, hJ', hr2⟩
+  · cases tr with
+    | nil => cases htr
+    | cons c txt =>
+      simp only [Bool.and_eq_true, beq_iff_eq, Bool.not_eq_eq_eq_not, Bool.not_true] at htr
+      obtain ⟨hc35, htxt⟩ := htr
+      subst hc35
+      obtain ⟨l, fi', ln', src2, hes, hr2⟩ := encSection_comment hc e s src n txt rest hclean hv hn htxt
+        (by rw [hsrc]; simp [List.append_assoc])
+      exact ⟨l, fi', ln', src2, [], hes, rfl, by simpa using hr2⟩
+
 end encname
 
 theorem sectStyle_Bar : SectStyle .enc cfgBar [124] [] where
@@ -392,17 +473,12 @@ theorem sectStyle_Bar : SectStyle .enc cfgBar [124] [] where
     simp [hnv, hp2]
   headFirst := by
     intro s src prev junk n tr rest hclean hv hprev hj hn htr hsrc
-    obtain ⟨t, J', hsplit, ht, ht0, hJ'⟩ := trail_head tr htr
-    have hsrc' : src.rest = junk ++ 124 :: (n ++ t :: (J' ++ rest)) := by
-      rw [hsrc]
-      have : tr ++ 10 :: rest = t :: (J' ++ rest) := by
-        have := congrArg (· ++ rest) hsplit
-        simpa [List.append_assoc] using this
-      simp [List.append_assoc, this]
+    have hsrc' : src.rest = junk ++ 124 :: (n ++ tr ++ 10 :: rest) := by
+      rw [hsrc]; simp [List.append_assoc]
     obtain ⟨ln, src1, hnv, hr1⟩ := nextvis_skip flatCfg_Bar.hash junk 124 _ s src hj (by decide) hsrc'
     have hclean1 : Clean [] ({ s with line := ln } : St).path := hclean
-    obtain ⟨l, fi', ln', src2, hes, hr2⟩ := encSection_name flatCfg_Bar [] { s with line := ln } src1 n t (J' ++ rest)
-      hclean1 hv hn ht ht0 hr1
+    obtain ⟨l, fi', ln', src2, J', hes, hJ', hr2⟩ := encSection_head flatCfg_Bar [] { s with line := ln } src1 n tr rest
+      hclean1 hv hn htr hr1
     have hp2 : (prev == Flag.sectEnd) = false := by rcases hprev with h | h <;> subst h <;> decide
     have hem : s.path.elems.isEmpty = true := by rw [hclean.1]; rfl
     refine ⟨_, src2, J', ?_, ⟨l, fi', 0, ln', rfl⟩, hJ', hr2⟩
@@ -418,14 +494,9 @@ theorem sectStyle_Bar : SectStyle .enc cfgBar [124] [] where
     simp [hp2, hnv, hem, Flag.sectEnd]
   headNext := by
     intro s src n tr rest hclean hv hn htr hsrc
-    obtain ⟨t, J', hsplit, ht, ht0, hJ'⟩ := trail_head tr htr
-    have hsrc' : src.rest = n ++ t :: (J' ++ rest) := by
-      rw [hsrc]
-      have : tr ++ 10 :: rest = t :: (J' ++ rest) := by
-        have := congrArg (· ++ rest) hsplit
-        simpa [List.append_assoc] using this
-      simp [this]
-    obtain ⟨l, fi', ln', src2, hes, hr2⟩ := encSection_name flatCfg_Bar [] s src n t (J' ++ rest) hclean hv hn ht ht0 hsrc'
+    have hsrc' : src.rest = n ++ tr ++ 10 :: rest := by
+      rw [hsrc]; simp [List.append_assoc]
+    obtain ⟨l, fi', ln', src2, J', hes, hJ', hr2⟩ := encSection_head flatCfg_Bar [] s src n tr rest hclean hv hn htr hsrc'
     refine ⟨_, src2, J', ?_, ⟨l, fi', 0, ln', rfl⟩, hJ', hr2⟩
     simp only [next, parseFormatEnc]
     simp [hes, Flag.sectEnd]
@@ -582,7 +653,7 @@ theorem sectStyle_Sep : SectStyle .sep cfgS [91] [93] where
       ((tr ++ [10]) ++ rest) hclean1 hv hn hr1
     have hp2 : (prev &&& 0xf == Flag.sectEnd) = false := by rcases hprev with h | h <;> subst h <;> decide
     have hem : s.path.elems.isEmpty = true := by rw [hclean.1]; rfl
-    refine ⟨_, src2, tr ++ [10], ?_, ⟨l, fi', v', ln', rfl⟩, visSkip_trail tr htr, hr2⟩
+    refine ⟨_, src2, tr ++ [10], ?_, ⟨l, fi', v', ln', rfl⟩, visSkip_headTrail tr htr, hr2⟩
     simp only [next, parseFormatSep]
     simp [hp2, hnv, hem, hes]
   headEnd := by
@@ -600,7 +671,7 @@ theorem sectStyle_Sep : SectStyle .sep cfgS [91] [93] where
     have hclean1 : Clean [] ({ s with curr := Flag.section_ } : St).path := hclean
     obtain ⟨l, fi', v', ln', src2, hes, hr2⟩ := sepFirst_name [] { s with curr := Flag.section_ } src n
       ((tr ++ [10]) ++ rest) hclean1 hv hn hsrc'
-    refine ⟨_, src2, tr ++ [10], ?_, ⟨l, fi', v', ln', rfl⟩, visSkip_trail tr htr, hr2⟩
+    refine ⟨_, src2, tr ++ [10], ?_, ⟨l, fi', v', ln', rfl⟩, visSkip_headTrail tr htr, hr2⟩
     simp only [next, parseFormatSep]
     have hp2 : ((2 : Nat) &&& 0xf == Flag.sectEnd) = true := by decide
     simp only [hp2, ↓reduceIte, hes]
